@@ -291,7 +291,9 @@ def check_owner_text(ctx):
     """Character data of the OWNING element next to wildcard content: before the first captured child, between
     children (their tails) and after the last one.  A list wildcard and a mixed wildcard keep it, in order; whatever
     the field keeps must come back in the same order (both writers, both handlers)."""
-    bodies = ["lead<a>x</a>", "lead<a>x</a>mid<b/>end", '<a k="v">x<b>y</b>z</a>mid<c/>', "lead<a/><b/>", "<a/>tail", "lead"]
+    bodies = ["lead<a>x</a>", "lead<a>x</a>mid<b/>end", '<a k="v">x<b>y</b>z</a>mid<c/>', "lead<a/><b/>", "<a/>tail", "lead",
+              # text PADDED with white space is text: it comes back with its padding (only white-space-only runs may go)
+              "lead <a>x</a> mid <b/> end", "<a> p <b/> q </a> r <c/>s ", " one\n<a/>\ttwo"]
     # children that bind to classes of their own (with wildcards of their own) instead of generic elements: a class instance
     # has no slot for its tail, so only MIXED content (which keeps text as items of the list) can hold the text after it
     typed = ["one<tspan>two<b/>x</tspan>three", "<tbox><a/><b>q</b></tbox>tail<tspan/>end", "<tspan><tbox><c/></tbox>in</tspan>out<tbox/>"]
